@@ -310,7 +310,35 @@ func main() {
 		base := uint64(2*spe + 2 + rng.Intn(3*spe))
 		exec(fmt.Sprintf("adv %d", int64(base)*slotNs+int64(rng.Intn(int(slotMs)))*1000000))
 		var added []core.Duty
-		for k := 0; k < 30+rng.Intn(60); k++ {
+		nops := 30 + rng.Intn(60)
+		burstAt := -1
+		if rng.Chance(1, 4) {
+			burstAt = rng.Intn(nops)
+		}
+		for k := 0; k < nops; k++ {
+			if k == burstAt {
+				// overflow probe: more than bufCap duties expire while the consumer is not reading (many of
+				// them sharing a deadline); the duties above the buffer capacity are dropped, and everything
+				// registered afterwards must still be reported
+				cur := uint64(ep.nowMs() / slotNs)
+				want := bufCap + 1 + rng.Intn(12)
+				for j := 0; j < 4*want && len(ep.pending) < want; j++ {
+					slot := cur + 1 + uint64(rng.Intn(3))
+					ty := []int{1, 2, 3, 4, 7, 9, 10, 11, 12, 13}[rng.Intn(10)]
+					added = append(added, core.Duty{Slot: slot, Type: core.DutyType(ty)})
+					exec(fmt.Sprintf("add %d %d", slot, ty))
+				}
+				var maxDl int64
+				for _, dlm := range ep.pending {
+					if dlm > maxDl {
+						maxDl = dlm
+					}
+				}
+				if maxDl > ep.nowMs() {
+					exec(fmt.Sprintf("adv %d", maxDl-ep.nowMs()+int64(rng.Intn(3))))
+				}
+				continue
+			}
 			switch c := rng.Intn(100); {
 			case c < 50: // add a duty around the current slot (mostly valid types)
 				cur := uint64(ep.nowMs() / slotNs)
